@@ -29,6 +29,7 @@ CORPUS = {
     "leading-and-trailing-space": "\n\n  \tlet a = num;\nres / on get -> <a>;\n\n  ",
     "trailing-garbage": "let a = num;\nres / on get -> <a>;\n\u00a0\u2028§",
     "nul-and-controls": "let a\x00 = num;\x0b\nres / on get -> <a>;\x7f\n",
+    "optional-parts-in-another-order": "let t = put : <str> { 'q str } -> <>;\nres /a on get { 'p num } : <{}> { 'again num } -> <>;\nlet c = <{}, status=200>;\nres /b?{ 'x num }/{ 'y num } on get -> <>;\nlet d = 'p! ? num;\n",
     "optional-parts-left-out": 'use "m.oal" as m;\nlet a = m.;\nlet b = { \'x m. , \'y str };\nlet c = b.;\nres /p? on get -> <>;\nres / on get : -> <>;\nlet d = [ ] ;\nlet e = a :: ;\n',
 }
 
